@@ -644,7 +644,17 @@ impl<'de, R: Read<'de>> Parser<R> {
             }
             b'?' if self.options.char_syntax == CharSyntax::Elisp => {
                 self.eat_char();
-                Token::Char(self.read.parse_elisp_char(&mut self.scratch)?)
+                let c = self.read.parse_elisp_char(&mut self.scratch)?;
+                // As in Emacs, a character constant must be followed by the end
+                // of input, whitespace or one of `"';()[]#?`,.` -- `?ab` is
+                // not the character `a` followed by the symbol `b`.
+                match self.peek()? {
+                    Some(next) if next > b' ' && !b"\"';()[]#?`,.".contains(&next) => {
+                        return Err(self.peek_error(ErrorCode::InvalidCharacterConstant));
+                    }
+                    _ => {}
+                }
+                Token::Char(c)
             }
             b'\'' => {
                 self.eat_char();
